@@ -155,7 +155,9 @@ class Executor:
                 return [self.spec_value(st, x) for x in c.items]
             if isinstance(c, ObjContent):
                 return S.SpecObj({a: self.spec_value(st, x) for a, x in c.attrs.items()})
-            if isinstance(c, (SetContent, DictContent, SeqContent)):
+            if isinstance(c, SeqContent):
+                return S.SpecSeq(c, v)
+            if isinstance(c, (SetContent, DictContent)):
                 return c
             raise OutOfSubset('spec view of %r' % c)
         if isinstance(v, VTuple):
@@ -164,6 +166,8 @@ class Executor:
             return S.SpecObj({a: self.spec_value(st, x) for a, x in v.fields.items()})
         if isinstance(v, VPtr):
             return S.SpecObj({'arr': self.spec_value(st, v.ref), 'offset': v.offset, 'ref': v.ref})
+        if isinstance(v, VFunc) and hasattr(v, 'z3fn'):
+            return v.z3fn
         return v
 
     def view(self, st, extra=None):
@@ -252,8 +256,12 @@ class Executor:
 
     # ------------------------------------------------------------------ arithmetic
     def binop(self, st, op, a, b, node):
-        if isinstance(a, VOpaque) or isinstance(b, VOpaque):
-            raise OutOfSubset('arithmetic on unmodelled value at line %d' % node.lineno)
+        if isinstance(a, VOpaque) or isinstance(b, VOpaque) or is_vec(a) or is_vec(b):
+            # abstract vectors / unmodelled objects: an uninterpreted function of the operands
+            for x in (a, b):
+                if not (isinstance(x, VOpaque) or is_vec(x) or is_num(x) or isinstance(x, bool) or x is None):
+                    raise OutOfSubset('arithmetic on unmodelled value at line %d' % node.lineno)
+            return vec_op(type(op).__name__, a, b)
         if isinstance(op, ast.Add) and isinstance(a, VTuple) and isinstance(b, VTuple):
             return VTuple(tuple(a) + tuple(b))
         if isinstance(op, ast.Mult) and isinstance(a, int) and isinstance(b, Ref) and isinstance(st.heap[b.id], ListContent):
@@ -311,6 +319,11 @@ class Executor:
                 r = 1
                 for _ in range(b):
                     r = r * a
+                return r
+            if is_num(a) and is_num(b):
+                # real power: uninterpreted, positive for a positive base (assumed contract of pow)
+                r = z3.Real(fresh_name('pow'))
+                st.pc.append(z3.Implies(to_z3(to_real(a)) > 0, r > 0))
                 return r
             raise OutOfSubset('power with non-constant exponent at line %d' % node.lineno)
         raise OutOfSubset('operator %s at line %d' % (type(op).__name__, node.lineno))
@@ -653,6 +666,15 @@ class Executor:
         st.heap[r.id] = ListContent([self.ev(e, st) for e in node.elts])
         return r
 
+    def e_Dict(self, node, st):
+        return VOpaque('dict literal')
+
+    def e_JoinedStr(self, node, st):
+        return 'fstring'
+
+    def e_Lambda(self, node, st):
+        return VOpaque('lambda')
+
     def e_UnaryOp(self, node, st):
         v = self.ev(node.operand, st)
         if isinstance(node.op, ast.Not):
@@ -660,6 +682,8 @@ class Executor:
         if isinstance(node.op, ast.USub):
             if isinstance(v, bool):
                 v = int(v)
+            if is_vec(v) or isinstance(v, VOpaque):
+                return vec_op('neg', v)
             if not is_num(v):
                 raise OutOfSubset('negation of %r' % (v,))
             return -v
@@ -745,6 +769,10 @@ class Executor:
             key = base.name + '.' + a
             if key in _MODFUNCS:
                 return VFunc(key, _MODFUNCS[key])
+            if key in ('np.linalg', 'scipy.linalg', 'scipy.sparse', 'numpy.linalg'):
+                return VModule(key.replace('numpy', 'np'))
+            if key == 'np.inf':
+                return INF
             return VOpaque(key)
         if isinstance(base, VStruct):
             if a in base.fields:
@@ -827,6 +855,14 @@ class Executor:
                 return None
             if name == 'index':
                 raise OutOfSubset('list.index at line %d' % node.lineno)
+        if isinstance(c, SeqContent):
+            if name == 'append':
+                v = args[0]
+                if isinstance(v, VOpaque):
+                    v = fresh_vec('elem')
+                c.data = z3.Store(c.data, to_z3(c.length), self.seq_elem(c, v, node))
+                c.length = c.length + 1
+                return None
         if isinstance(c, SetContent):
             if name == 'add':
                 c.data = z3.Store(c.data, self.pack(args[0], c.elem_sort), z3.BoolVal(True))
@@ -842,6 +878,36 @@ class Executor:
                     raise OutOfSubset('dict.get default None at line %d' % node.lineno)
                 return z3.If(z3.Select(c.keys, k), z3.Select(c.vals, k), self.pack(dflt, c.val_sort))
         raise OutOfSubset('method %s on %s at line %d' % (name, type(c).__name__, node.lineno))
+
+    def seq_elem(self, c, v, node):
+        srt = c.data.sort().range()
+        if srt == z3.RealSort():
+            if not is_num(v):
+                raise OutOfSubset('non-numeric element appended to a list of reals at line %d' % node.lineno)
+            return to_z3(to_real(v))
+        z = to_z3(v)
+        if z.sort() != srt:
+            raise OutOfSubset('element sort mismatch at line %d' % node.lineno)
+        return z
+
+    def list_to_seq(self, st, ref, node):
+        """python list of known length -> symbolic-length sequence (needed when a loop appends to it)"""
+        c = st.heap[ref.id]
+        if not isinstance(c, ListContent):
+            return
+        items = [fresh_vec('elem') if isinstance(x, VOpaque) else x for x in c.items]
+        if all(is_num(x) for x in items):
+            srt = z3.RealSort() if any(is_real(x) for x in items) or not items else z3.IntSort()
+            if not items:
+                srt = z3.RealSort()
+        elif all(is_vec(x) for x in items):
+            srt = VecSort
+        else:
+            raise OutOfSubset('list with mixed element kinds is appended to in a loop (line %d)' % node.lineno)
+        data = z3.Const(fresh_name(ref.label), z3.ArraySort(z3.IntSort(), srt))
+        for k, x in enumerate(items):
+            data = z3.Store(data, k, to_z3(to_real(x)) if srt == z3.RealSort() else to_z3(x))
+        st.heap[ref.id] = SeqContent(z3.IntVal(len(items)), data, 'seq')
 
     def address_of(self, node, st):
         if isinstance(node, ast.Subscript):
@@ -997,6 +1063,10 @@ class Executor:
                 results = self.do_callee(call, nm, st)
                 out = []
                 for (st2, val) in results:
+                    if isinstance(val, S.Raise):
+                        st2.memo = {}
+                        out.append((st2, ('raise', val.exc)))
+                        continue
                     st2.memo[call] = val
                     out.extend(self.exec_stmt(s, st2))
                 return out
@@ -1018,6 +1088,53 @@ class Executor:
     def x_Global(self, s, st):
         return [(st, None)]
 
+    def x_ImportFrom(self, s, st):
+        for a in s.names:
+            key = '%s.%s' % (s.module, a.name)
+            if key in _MODFUNCS:
+                st.env[a.asname or a.name] = VFunc(key, _MODFUNCS[key])
+            else:
+                st.env[a.asname or a.name] = VOpaque(key)
+        return [(st, None)]
+
+    def x_Import(self, s, st):
+        return [(st, None)]
+
+    def x_Nonlocal(self, s, st):
+        return [(st, None)]
+
+    def x_FunctionDef(self, s, st):
+        st.env[s.name] = VOpaque('nested function ' + s.name)
+        return [(st, None)]
+
+    def x_Try(self, s, st):
+        if s.finalbody:
+            raise OutOfSubset('try/finally at line %d' % s.lineno)
+        out = []
+        for (s2, o2) in self.exec_block(s.body, st):
+            if isinstance(o2, tuple) and o2[0] == 'raise':
+                handled = False
+                for h in s.handlers:
+                    names = []
+                    if h.type is None:
+                        names = None
+                    else:
+                        ts = h.type.elts if isinstance(h.type, ast.Tuple) else [h.type]
+                        names = [t.id if isinstance(t, ast.Name) else getattr(t, 'attr', None) for t in ts]
+                    if names is None or o2[1] in names or 'Exception' in names or 'BaseException' in names:
+                        if h.name:
+                            s2.env[h.name] = VOpaque('exception')
+                        out.extend(self.exec_block(h.body, s2))
+                        handled = True
+                        break
+                if not handled:
+                    out.append((s2, o2))
+            elif o2 is None and s.orelse:
+                out.extend(self.exec_block(s.orelse, s2))
+            else:
+                out.append((s2, o2))
+        return out
+
     def x_Break(self, s, st):
         return [(st, 'break')]
 
@@ -1030,6 +1147,7 @@ class Executor:
         if isinstance(s.value, ast.Call) and isinstance(s.value.func, ast.Name) and s.value.func.id in ('print',):
             return [(st, None)]
         self.ev(s.value, st)
+        self.ghost_hook(s, st)
         return [(st, None)]
 
     def x_Assign(self, s, st):
@@ -1076,6 +1194,9 @@ class Executor:
         return [(st, None)]
 
     def x_With(self, s, st):
+        for it in s.items:
+            if it.optional_vars is not None and isinstance(it.optional_vars, ast.Name):
+                st.env[it.optional_vars.id] = VOpaque('context manager')
         return self.exec_block(s.body, st)
 
     def x_Return(self, s, st):
@@ -1177,8 +1298,22 @@ class Executor:
                             if r:
                                 roots.add(r)
         for g in self.contract.ghost:
-            pass
+            if len(g) == 3:
+                for stmt in body:
+                    for n in ast.walk(stmt):
+                        if hasattr(n, 'lineno') and isinstance(n, ast.stmt) and re.search(g[0], self.cur_fn.srcfile.line(n.lineno)):
+                            names.update(g[1])
         return names, roots
+
+    def appended_roots(self, body):
+        out = set()
+        for stmt in body:
+            for n in ast.walk(stmt):
+                if isinstance(n, ast.Call) and isinstance(n.func, ast.Attribute) and n.func.attr == 'append':
+                    r = _root_path(n.func.value)
+                    if r:
+                        out.add(r)
+        return out
 
     def callee_written_params(self, cs):
         """positions of the callee's parameters it may write through (None = unknown: all)"""
@@ -1228,6 +1363,10 @@ class Executor:
             return nv
         if is_real(v):
             return z3.Real(fresh_name(name))
+        if is_vec(v):
+            return fresh_vec(name)
+        if isinstance(v, VFunc):
+            return v
         if isinstance(v, VTuple):
             return VTuple(self.havoc_value(st, x, name) for x in v)
         if isinstance(v, VStruct):
@@ -1267,6 +1406,9 @@ class Executor:
         """(lo, hi, step) if the for loop iterates a range (possibly reversed), else None"""
         it = s.iter
         rev = False
+        wrappers = self.contract.options.get('identity_wrappers', ())
+        if isinstance(it, ast.Call) and isinstance(it.func, ast.Name) and it.func.id in wrappers and len(it.args) == 1:
+            it = it.args[0]
         if isinstance(it, ast.Call) and isinstance(it.func, ast.Name) and it.func.id == 'reversed' and len(it.args) == 1:
             it = it.args[0]
             rev = True
@@ -1350,6 +1492,10 @@ class Executor:
             st.env[ctr] = lo
             if (self.cur_fn, ctr) in st.ctypes:
                 pass
+        for r in sorted(self.appended_roots(body)):
+            v = self.resolve_root(st, r)
+            if isinstance(v, Ref):
+                self.list_to_seq(st, v, s)
         # ---- init
         v0 = self.view(st)
         for (lab, f) in S.labelled(spec.inv(v0) if spec.inv else [], 'inv'):
@@ -1470,7 +1616,8 @@ class Executor:
         return results
 
     def ghost_hook(self, s, st):
-        for (pat, upd) in self.contract.ghost:
+        for g in self.contract.ghost:
+            pat, upd = g[0], g[-1]
             line = self.cur_fn.srcfile.line(s.lineno)
             if re.search(pat, line):
                 for name, val in upd(self.view(st)).items():
@@ -1487,7 +1634,17 @@ class Executor:
         if isinstance(spec, S.Contract):
             return self.contract_call(spec, call, args, kwargs, st)
         if callable(spec):
-            return [(st, spec(self, st, call, *args, **kwargs))]
+            r = spec(self, st, call, *args, **kwargs)
+            if isinstance(r, S.Outcomes):
+                res = []
+                for k, alt in enumerate(r.alts):
+                    s2 = st.fork() if k < len(r.alts) - 1 else st
+                    if isinstance(alt, tuple) and len(alt) == 2 and not isinstance(alt, VTuple):
+                        self.assume(s2, alt[0])
+                        alt = alt[1]
+                    res.append((s2, alt))
+                return res
+            return [(st, r)]
         raise OutOfSubset('callee spec for %s' % nm)
 
     def bind_args(self, fn, args, kwargs, st, node):
@@ -1599,8 +1756,21 @@ class Executor:
                 st.ctypes[(fn, name)] = ct
                 if ct.kind == 'int' and is_z3(st.env[name]):
                     self.ctype_assume(st, st.env[name], ct)
-        for name, sort in c.attrs.items():
-            pass
+        argnames = {a.arg for a in fn.args.args} | {a.arg for a in fn.args.kwonlyargs}
+        for a in fn.args.kwonlyargs:
+            sort = self.instance.get(a.arg, c.params.get(a.arg))
+            if sort is None:
+                raise OutOfSubset('no sort for keyword-only parameter %s' % a.arg)
+            if not isinstance(sort, S.Sort):
+                sort = S.Const(sort)
+            st.env[a.arg] = sort.make(self, st, a.arg)
+        for name, sort in c.params.items():
+            # closure variables of nested functions are given as extra parameters
+            if name not in argnames:
+                sort = self.instance.get(name, sort)
+                if not isinstance(sort, S.Sort):
+                    sort = S.Const(sort)
+                st.env[name] = sort.make(self, st, name)
 
     def run(self, init=None):
         st = State()
@@ -1697,7 +1867,10 @@ class Executor:
             return {a: self.concretize(st, x, model) for a, x in val.fields.items()}
         if isinstance(val, VPtr):
             return {'ptr_into': self.concretize(st, val.ref, model), 'offset': ev(val.offset)}
-        return ev(val)
+        r = ev(val)
+        if r is None or isinstance(r, (int, float, str, bool)):
+            return r
+        return repr(r)
 
 
 class ContractDrift(Exception):
@@ -1708,6 +1881,14 @@ class ContractDrift(Exception):
 class _Line:
     def __init__(self, lineno):
         self.lineno = lineno
+
+
+class _Inf:
+    def __repr__(self):
+        return '<inf>'
+
+
+INF = _Inf()
 
 
 class _Unset:
@@ -1775,6 +1956,14 @@ def _b_len(ex, st, node, x):
             return c.shape[0]
         if isinstance(c, SeqContent):
             return c.length
+    if is_vec(x):
+        n = vlen_fn(x)
+        st.pc.append(n >= 0)
+        return n
+    if isinstance(x, VOpaque):
+        n = z3.Int(fresh_name('len'))
+        st.pc.append(n >= 0)
+        return n
     raise OutOfSubset('len of %r at line %d' % (x, node.lineno))
 
 
@@ -1811,6 +2000,8 @@ def _minmax(is_min):
 
 
 def _b_abs(ex, st, node, x):
+    if is_vec(x) or isinstance(x, VOpaque):
+        return vec_op('abs', x)
     if is_concrete(x):
         return abs(x)
     return z3.If(x >= 0, x, -x)
@@ -1858,7 +2049,58 @@ def _b_float(ex, st, node, x):
     return to_real(x)
 
 
-_BUILTINS = {'len': _b_len, 'range': _b_range, 'prange': lambda ex, st, node, *a, **k: _b_range(ex, st, node, *a),
+def _b_print(ex, st, node, *a, **k):
+    return None
+
+
+def _b_dict(ex, st, node, *a, **k):
+    return VOpaque('dict')
+
+
+def _m_ceil(ex, st, node, x):
+    if is_concrete(x):
+        import math
+        return math.ceil(x)
+    if is_int(x):
+        return x
+    c = z3.Int(fresh_name('ceil'))
+    st.pc.append(z3.And(z3.ToReal(c) - 1 < x, x <= z3.ToReal(c)))
+    return c
+
+
+def _np_norm(ex, st, node, x, *a, **k):
+    if is_vec(x):
+        r = norm_fn(x)
+        st.pc.append(r >= 0)
+        return r
+    r = z3.Real(fresh_name('norm'))
+    st.pc.append(r >= 0)
+    return r
+
+
+def _np_sqrt(ex, st, node, x):
+    if is_num(x):
+        r = z3.Real(fresh_name('sqrt'))
+        xr = to_z3(to_real(x))
+        st.pc.append(z3.And(r >= 0, r * r == xr))
+        ex.oblige(st, 'safe:sqrt', node, xr >= 0, 'sqrt of a non-negative number')
+        return r
+    return vec_op('sqrt', x)
+
+
+def _np_array(ex, st, node, x, *a, **k):
+    if is_vec(x) or is_num(x):
+        return x
+    if isinstance(x, VOpaque):
+        return fresh_vec('array')
+    raise OutOfSubset('np.array of %r' % (x,))
+
+
+def _np_inf():
+    return None
+
+
+_BUILTINS = {'print': _b_print, 'dict': _b_dict, 'len': _b_len, 'range': _b_range, 'prange': lambda ex, st, node, *a, **k: _b_range(ex, st, node, *a),
              'reversed': _b_reversed, 'min': _minmax(True), 'max': _minmax(False), 'abs': _b_abs, 'fabs': _b_abs,
              'int': _b_int, 'tuple': _b_tuple, 'list': _b_list, 'enumerate': _b_enumerate, 'zip': _b_zip,
              'bool': _b_bool, 'float': _b_float, 'isinstance': _b_isinstance}
@@ -1936,5 +2178,6 @@ def _np_allclose(ex, st, node, a, b, rtol=Fraction(1, 100000), atol=Fraction(1, 
                                      ab(x - y) <= to_z3(to_real(atol)) + to_z3(to_real(rtol)) * ab(y)))
 
 
-_MODFUNCS = {'np.allclose': _np_allclose, 'np.empty': _np_alloc(None), 'np.zeros': _np_alloc(0), 'np.ones': _np_alloc(1),
+_MODFUNCS = {'math.ceil': _m_ceil, 'np.linalg.norm': _np_norm, 'scipy.linalg.norm': _np_norm, 'np.sqrt': _np_sqrt,
+             'np.array': _np_array, 'np.allclose': _np_allclose, 'np.empty': _np_alloc(None), 'np.zeros': _np_alloc(0), 'np.ones': _np_alloc(1),
              'np.empty_like': _np_empty_like, 'np.isscalar': _np_isscalar}
